@@ -48,9 +48,14 @@ func loadWorld(repo string, overlay map[string][]byte, withDeps bool) (*World, e
 		return nil, fmt.Errorf("no packages loaded from %s", repo)
 	}
 	w := &World{repo: repo, pkgs: pkgs, all: map[string]*packages.Package{}, overlay: overlay}
+	tp := map[string]*types.Package{}
 	packages.Visit(pkgs, nil, func(p *packages.Package) {
 		w.all[p.PkgPath] = p
+		if p.Types != nil {
+			tp[p.PkgPath] = p.Types
+		}
 	})
+	registerTypes(tp)
 	for _, p := range pkgs {
 		for _, e := range p.Errors {
 			w.loadErr = append(w.loadErr, fmt.Sprintf("%s: %s", p.PkgPath, e.Msg))
@@ -233,7 +238,7 @@ func (w *World) engine(depth, loops int) *Engine {
 			depth = 8
 		}
 	}
-	return &Engine{globalInit: w.globalInits(),prog: w.prog, fset: w.fset, modPrefix: modPath, maxDepth: depth, loopBound: loops, maxPaths: 20000, funcByName: w.funcs, opaque: map[string]bool{}, hof: map[string]int{}}
+	return &Engine{uniqueImpl: w.uniqueImpl, globalInit: w.globalInits(),prog: w.prog, fset: w.fset, modPrefix: modPath, maxDepth: depth, loopBound: loops, maxPaths: 20000, funcByName: w.funcs, opaque: map[string]bool{}, hof: map[string]int{}}
 }
 
 func (w *World) pos(p token.Pos) string {
@@ -305,4 +310,49 @@ func (w *World) fileOf(p *packages.Package, pos token.Pos) *ast.File {
 		}
 	}
 	return nil
+}
+
+
+var uniqueImplCache = map[*World]map[*types.Func]*ssa.Function{}
+
+// uniqueImpl: when exactly one production (non-test) type of the module implements the interface that declares m, the
+// method of that type; nil otherwise. Interfaces declared outside the module are never resolved this way.
+func (w *World) uniqueImpl(m *types.Func) *ssa.Function {
+	if m == nil || m.Pkg() == nil || !strings.HasPrefix(m.Pkg().Path(), modPath) {
+		return nil
+	}
+	c := uniqueImplCache[w]
+	if c == nil {
+		c = map[*types.Func]*ssa.Function{}
+		uniqueImplCache[w] = c
+	}
+	if f, ok := c[m]; ok {
+		return f
+	}
+	var found []*ssa.Function
+	seen := map[string]bool{}
+	for _, f := range w.implementations(m) {
+		if f == nil || !w.isProd(f) {
+			continue
+		}
+		// a pointer and its element type are one implementation
+		rt := f.Signature.Recv().Type()
+		if p, ok := rt.(*types.Pointer); ok {
+			rt = p.Elem()
+		}
+		k := types.TypeString(rt, nil)
+		if seen[k] {
+			continue
+		}
+		seen[k] = true
+		found = append(found, f)
+	}
+	var out *ssa.Function
+	// only consumer-side interfaces (declared in another package than their implementation): a provider-side interface
+	// next to its implementation is a deliberate seam (client.Fetcher) and stays an interface call
+	if len(found) == 1 && found[0].Synthetic == "" && pkgPathOf(found[0]) != m.Pkg().Path() {
+		out = found[0]
+	}
+	c[m] = out
+	return out
 }
